@@ -191,6 +191,20 @@ CLAIMED = {
         "waits. Schedules are sampled (seeded). The dict-operation traces are not yet validated against MultiRun.tla (observations are).",
    technique="TLA+ model checking of the shared-registry protocol + scheduler-driven exploration of the real code judged by TLC",
    design="4/C15"),
+ "C01": dict(
+   text="spec/DataflowP.tla defines the whole-run result of every data type of a graph built from all eight plugin kinds (row-wise, "
+        "filter, same-kind merge, multi-output, loop, overlap-window, down-chunking, exhaust) and the tiling law; spec/Dataflow.tla "
+        "checks the definitions and materialises the configuration space (independent chunkings of two sources, alternative "
+        "chunking for pre-stored intermediate data, stored subsets, targets). For sampled configurations the real get_iter runs "
+        "under sampled settings (both processors, max_workers, lazy/eager, capacities, rechunk on save, tiny target sizes; "
+        "threaded runs under OS threads and under the deterministic scheduler with seeded schedules); TLC judges every yielded "
+        "stream and every data type the request stored (re-read by a fresh context) against the P-level (DataflowTrace.tla): "
+        "contiguous tiling of the run, rows inside their tiles, concatenated rows = whole-run result. The per-plugin alignment "
+        "machinery is verified at I-level in C08 / C09 / C07, the mailboxes in C05.",
+   note="The configuration product is sampled (seeded), not enumerated; multiprocessing is not exercised; max_messages 4 / 10; one "
+        "fixed pair of source row sets.",
+   technique="TLA+ whole-run oracle (TLC) + execution of sampled configurations on the real code + TLC trace validation at P-level",
+   design="4/C01"),
 }
 NOT_BUILT = "decision procedure (TLA+ module + binding) not built yet in this session; see DESIGN.md section 4 for the plan"
 
